@@ -596,6 +596,87 @@ func runC15(c *Ctx) {
 			c.Fail(key, ci.Pos(), "a 256-bit stack word is cut to 64 bits without its width having been decided: an operand of 2^64 or more behaves like its low 64 bits (BYTE(2^64, x) returns byte 0 instead of 0, a shift by 2^64 shifts by 0)")
 		}
 	}
+	// ------------------------------------------------------------ X6
+	c.Rule("C15.X6", "GATE", "memory writes store every byte of their range: math.ReadBits writes only the words its operand has (nothing at all for zero), so in package core/vm every ReadBits into EVM memory is dominated by clearing exactly that range (copy of zero bytes onto the same slice bounds) or writes into a buffer made in the same function — otherwise storing a smaller value leaves old bytes behind and MLOAD does not read back what was written")
+	c.Min(1)
+	{
+		nRB := 0
+		for _, fn := range w.FuncsIn("core/vm") {
+			if strings.HasSuffix(w.fileOf(fn.Pos()), "_test.go") {
+				continue
+			}
+			for _, ci := range callInstrs(fn) {
+				o := calleeObj(ci)
+				if o == nil || o.Name() != "ReadBits" || o.Pkg() == nil || !strings.HasSuffix(o.Pkg().Path(), "common/math") {
+					continue
+				}
+				nRB++
+				c.sites++
+				c.sawFunc(fname(fn))
+				dst := stripConv(callArgs(ci)[1])
+				ok, how := false, ""
+				if derivesFrom(dst, func(v ssa.Value) bool { _, isMk := v.(*ssa.MakeSlice); return isMk }) {
+					if _, isSl := dst.(*ssa.Slice); !isSl {
+						ok, how = true, "writes into a buffer made here"
+					} else if ms, isMk := dst.(*ssa.Slice).X.(*ssa.MakeSlice); isMk && ms != nil {
+						ok, how = true, "writes into a buffer made here"
+					}
+				}
+				if dsl, isSl := dst.(*ssa.Slice); isSl && !ok {
+					for _, cc := range callInstrs(fn) {
+						call, isCall := cc.(*ssa.Call)
+						if !isCall {
+							continue
+						}
+						bi, isB := call.Call.Value.(*ssa.Builtin)
+						if !isB || bi.Name() != "copy" {
+							continue
+						}
+						csl, isSl2 := stripConv(call.Call.Args[0]).(*ssa.Slice)
+						if !isSl2 || !samePath(csl.X, dsl.X) {
+							continue
+						}
+						sameBound := func(a, b ssa.Value) bool {
+							if a == nil || b == nil {
+								return a == nil && b == nil
+							}
+							return a == b || termOf(a, 4) == termOf(b, 4)
+						}
+						if !sameBound(csl.Low, dsl.Low) || !sameBound(csl.High, dsl.High) {
+							continue
+						}
+						// the source is all zero bytes
+						zero := false
+						if ssl, isS := stripConv(call.Call.Args[1]).(*ssa.Slice); isS {
+							if al, isAl := ssl.X.(*ssa.Alloc); isAl {
+								zero = true
+								for _, r := range *al.Referrers() {
+									ia, isIA := r.(*ssa.IndexAddr)
+									if !isIA {
+										continue
+									}
+									for _, rr := range *ia.Referrers() {
+										if st, isSt := rr.(*ssa.Store); isSt && st.Addr == ssa.Value(ia) {
+											if n, isC := constInt(st.Val); !isC || n != 0 {
+												zero = false
+											}
+										}
+									}
+								}
+							}
+						}
+						if zero && instrDominates(call, ci.(ssa.Instruction)) {
+							ok, how = true, "the same range is cleared first"
+						}
+					}
+				}
+				c.Check(fmt.Sprintf("%s#ReadBits-into-cleared-range", fname(fn)), ci.Pos(), ok, ifelse(ok, how, "ReadBits writes into memory without the destination range having been cleared: a value with fewer words than the range (zero writes nothing) leaves the previous bytes in place, so a later load reads stale data"))
+			}
+		}
+		if nRB == 0 {
+			c.Undecided("core/vm#ReadBits-sites", token.NoPos, "no math.ReadBits call found in core/vm (Memory.Set32 is expected)")
+		}
+	}
 }
 
 // stack operations of one call
